@@ -35,6 +35,8 @@ claim("C08", "model_checking", "OptCheck.tla: TLC exhausts both dispatch trees (
 claim("C11", "model_checking", "Observers.tla holds the implementation-shaped observer records next to the definitional FeatTrue; FeatureModel.tla is model-checked per observer class and deviation direction (the two recorded findings are reproduced by TLC as their own invariants); every feature of every real observer after every dispatch is compared with FeatTrue by the monitor, deviations labelled as-modelled/unexplained.", N_D, T_D, "5/C11")
 claim("C12", "model_checking", "FeatureModel.tla: Reset then ResetAll in subscription order equals fresh construction for every creation order of the dependent observers (the naive protocol is refuted by TLC as a design mutant); real resets at TLC-chosen points compared with the state logged after construction and with the same calls on fresh objects.", N_D, T_D, "5/C12")
 claim("C13", "model_checking", "Reward lists as observer records; sum = -makespan / -idle time and one non-positive reward per dispatch as invariants and as monitor predicates on every logged state.", N_D, T_D, "5/C13")
+claim("C16", "model_checking", "Graphs.tla defines node lists and typed edge sets of the five builders and the solved graph; TLC proves acyclicity and longest path = makespan for every dispatcher-built complete schedule of the family; the real builders' graphs are compared node by node and edge by edge, real solved graphs (dispatcher and CP-SAT schedules) judged by TLC's own Acyclic/LongestPath on the logged edges.", N_D, T_D, "5/C16")
+claim("C17", "model_checking", "GraphModel.tla: residual removals as a state variable driven by the IsCompleted record, invariants per builder/options incl. second episodes; the real updater's removed mask, node set and edge list after every call judged by the same predicates.", N_D, T_D, "5/C17")
 
 
 def build(registered):
